@@ -113,15 +113,17 @@ class Tracker:
         X1 = X + U * self.dt / self.dx
         Y1 = Y + V * self.dt / self.dy
 
-        # Kill particles trying to move out of the grid
-        out_of_grid = ~grid.ingrid(X1, Y1)
-        state.alive[out_of_grid] = False
-        state.active[out_of_grid] = False  # Not necessary if they are removed
-
         # Do not move inactive particles
         inactive = ~state.active
         X1[inactive] = X[inactive]
         Y1[inactive] = Y[inactive]
+
+        # Kill particles trying to move out of the grid, they are not moved
+        out_of_grid = ~grid.ingrid(X1, Y1)
+        state.alive[out_of_grid] = False
+        state.active[out_of_grid] = False  # Not necessary if they are removed
+        X1[out_of_grid] = X[out_of_grid]
+        Y1[out_of_grid] = Y[out_of_grid]
 
         # Land, boundary treatment. Do not move the particles onto land
         # Consider a sequence of different actions
